@@ -22,6 +22,33 @@ pub enum BcSpec {
     RowAll(End),
     /// `Individual(Mixed)` with one (left, right) pair per lane (cyclic over lanes)
     Lanes(Vec<(End, End)>),
+    /// `Individual` with one row specification per lane (cyclic): non-mixed row kinds and
+    /// mixed pairs in one array
+    Rows(Vec<RowSpec>),
+}
+
+/// one row of an `Individual` boundary array
+#[derive(Clone, Copy, Debug, PartialEq)]
+pub enum RowSpec {
+    /// RowBoundary::{NotAKnot, Natural, Clamped}
+    Kind(End),
+    /// RowBoundary::Mixed
+    Mixed(End, End),
+}
+
+impl RowSpec {
+    pub fn name(&self) -> String {
+        match self {
+            RowSpec::Kind(e) => format!("Row:{}", e.name()),
+            RowSpec::Mixed(l, r) => format!("{}|{}", l.name(), r.name()),
+        }
+    }
+    pub fn cond(&self) -> Cond {
+        match self {
+            RowSpec::Kind(e) => Cond::Ends(*e, *e),
+            RowSpec::Mixed(l, r) => Cond::Ends(*l, *r),
+        }
+    }
 }
 
 impl BcSpec {
@@ -49,6 +76,19 @@ impl BcSpec {
                     s
                 }
             }
+            BcSpec::Rows(v) => {
+                let mut s = format!("Rows{}:", v.len());
+                for (i, r) in v.iter().enumerate().take(6) {
+                    if i > 0 {
+                        s.push(';');
+                    }
+                    s.push_str(&r.name());
+                }
+                if v.len() > 6 {
+                    s.push_str(";..");
+                }
+                s
+            }
         }
     }
     pub fn is_periodic(&self) -> bool {
@@ -66,6 +106,7 @@ impl BcSpec {
                 let (l, r) = v[j % v.len()];
                 Cond::Ends(l, r)
             }
+            BcSpec::Rows(v) => v[j % v.len()].cond(),
         }
     }
 }
@@ -99,6 +140,19 @@ pub fn row<T: Fl>(spec: &BcSpec, j: usize) -> RowBoundary<T> {
                 right: single(r),
             }
         }
+        BcSpec::Rows(v) => match v[j % v.len()] {
+            RowSpec::Kind(End::NotAKnot) => RowBoundary::NotAKnot,
+            RowSpec::Kind(End::Natural) => RowBoundary::Natural,
+            RowSpec::Kind(End::Clamped) => RowBoundary::Clamped,
+            RowSpec::Kind(e) => RowBoundary::Mixed {
+                left: single(e),
+                right: single(e),
+            },
+            RowSpec::Mixed(l, r) => RowBoundary::Mixed {
+                left: single(l),
+                right: single(r),
+            },
+        },
         BcSpec::TopNotAKnot => RowBoundary::NotAKnot,
         BcSpec::TopNatural => RowBoundary::Natural,
         BcSpec::TopClamped => RowBoundary::Clamped,
